@@ -113,9 +113,28 @@ EXTRA_CASES = [
          src="package a\n\nfunc f() {\n\tf3(1, 2, 3, 2)\n\tf3(1, 2, 3, 4)\n\tf3(5, 5)\n}\n"),
     dict(name="extra/three-elisions-two-names-stmts", patch="@@\nvar f, g expression\n@@\n f := open()\n ...\n check(g)\n ...\n-f.Close()\n+f.Shutdown(g)\n",
          src="package a\n\nfunc two() {\n\ta := open()\n\tb := open()\n\tcheck(e2)\n\tb.Close()\n}\n"),
+    # an unchanged line inside a raw string literal that spans lines, written once with the space prefix
+    # (known finding context-line-inside-raw-string-keeps-its-prefix: identified by this patch and source)
+    dict(name="extra/raw-string-context-line", patch="@@\n@@\n-join(`\n+concat(`\n hello\n`, \"x\")\n",
+         src="package a\n\nfunc g() string {\n\treturn join(`\nhello\n`, \"x\")\n}\n"),
     dict(name="extra/decrement-stmt", patch="@@\nvar i identifier\n@@\n i--\n-work(i)\n+work2(i)\n i++\n",
          src="package a\n\nfunc f(n int) {\n\tn--\n\twork(n)\n\tn++\n}\n"),
 ]
+
+
+KF_RAW = "context-line-inside-raw-string-keeps-its-prefix"
+
+
+def _kf_raw_input():
+    for line in open(os.path.join(VERIF, "known_findings.jsonl")):
+        if line.strip():
+            e = json.loads(line)
+            if e.get("status") == "known" and e.get("key") == KF_RAW:
+                return (e["example"]["patch"], e["example"]["src"])
+    return None
+
+
+KF_RAW_INPUT = _kf_raw_input()
 
 
 def parse_txtar(path):
@@ -442,6 +461,11 @@ def run(ctx):
             if r["kind"] == "split":
                 ctx.violation("%s: %s" % (r["id"], ",".join(v["viol"])),
                               dict(kind="split", id=r["id"], violated=v["viol"], line_kinds=r["file"], patch=r["text"], observed=r["obs"], err=r["err"]))
+            elif KF_RAW in known and r["case"] == "extra/raw-string-context-line" and (r["_patch"], r["_src"]) == KF_RAW_INPUT and \
+                    set(r["transform"].split("+")) & {"T7", "T8"} and r["baseErr"] == "0" and r["variantErr"] == "0":
+                # the recorded defect: identified by its exact base patch and source; the variant writes the line as a
+                # pair (T7) or without the prefix (T8) and is the one that matches
+                ctx.known(KF_RAW, known[KF_RAW], r["id"])
             else:
                 ctx.violation("%s: %s %s on %s" % (r["id"], ",".join(v["viol"]), r["transform"], r["case"]),
                               dict(kind="pair", id=r["id"], violated=v["viol"], transform=r["transform"], case=r["case"], patch=r["_patch"],
